@@ -360,7 +360,11 @@ struct Gen
         else
         {
             if ((kind == K_NTT || kind == K_INTT) && r.chance(1, 40))
+            {
                 o.n = 0;
+                if (r.chance(1, 3))
+                    o.maxn = 0; // an object constructed for maxDomainSize 0 may only be asked for no-ops
+            }
             o.nphase = pick_nphase(logn);
             o.dst = (int)r.below(3);
         }
@@ -390,7 +394,15 @@ struct Gen
         static const uint64_t c[] = {0, 1, 2, 3, 4, 5, 6, 7, 8, 9, 10, 11, 12, 13, 15, 16, 17, 24, 25, 33, 40};
         o.cols = r.pick(c);
         o.dim = r.chance(2, 3) ? 1 : r.range(2, 3);
-        if (o.rows * o.cols * o.dim > 4096)
+        if (r.chance(1, 14))
+        {
+            // long rows (many sponge blocks; thresholds such as 64/128/256 elements per row)
+            static const uint64_t wide[] = {64, 100, 127, 128, 129, 200, 255, 256, 257, 400};
+            o.cols = r.pick(wide);
+            if (o.rows > 8)
+                o.rows = (uint64_t)1 << r.range(0, 3);
+        }
+        else if (o.rows * o.cols * o.dim > 4096)
             o.cols = o.cols % 9;
         switch (r.below(8))
         {
@@ -441,7 +453,7 @@ struct Gen
     {
         o.kind = zero ? K_PARSETZERO : K_PARCPY;
         static const uint64_t s[] = {0, 1, 2, 3, 4, 7, 8, 9, 31, 63, 64, 65, 100, 127, 255, 1000, 1023, 4097, 5000};
-        o.size = r.chance(1, 2) ? r.pick(s) : r.range(0, lim.max_copy);
+        o.size = r.chance(1, 2) ? r.pick(s) : r.chance(1, 3) ? r.range(0, lim.max_copy) : r.range(0, 600);
         if (o.size > lim.max_copy)
             o.size = lim.max_copy;
         switch (r.below(14))
